@@ -304,6 +304,10 @@ WaitingForFinishedAck(c, cfg, pkt) == IF pkt.t # "ACK" THEN PositiveAckD(c, cfg)
 \* __non_idle_fsm
 NonIdleD(c0, cfg, pkt) ==
   LET A(c) == AdvanceD(c, cfg)
+      \* CFDP 4.7.2: every EOF PDU received is acknowledged, also one re-sent after the EOF was accepted (its ACK was lost)
+      A2(c) == IF pkt.t = "EOF" /\ ModeD(c) = "ACK"
+                  /\ c.h.step \in {"WAITING_FOR_MISSING_DATA", "TRANSFER_COMPLETION", "SENDING_FINISHED_PDU", "WAITING_FOR_FINISHED_ACK"}
+               THEN EmitD(c, MkAckEof(c)) ELSE c
       B(c) == IF c.h.step \in {"RECEIVING_FILE_DATA", "RECV_FILE_DATA_WITH_CHECK_LIMIT_HANDLING"} /\ pkt.t # "none" THEN
                  (IF pkt.t = "FD" THEN HandleFd(c, cfg, pkt) ELSE IF pkt.t = "EOF" THEN HandleEof(c, cfg, pkt) ELSE c)
               ELSE c
@@ -319,7 +323,7 @@ NonIdleD(c0, cfg, pkt) ==
       F(c) == IF c.h.step = "TRANSFER_COMPLETION" THEN TransferCompletion(c, cfg) ELSE c
       G(c) == IF c.h.step = "SENDING_FINISHED_PDU" THEN ThenD(PrepareFinished(c), FinishedSent) ELSE c
       H(c) == IF c.h.step = "WAITING_FOR_FINISHED_ACK" THEN WaitingForFinishedAck(c, cfg, pkt) ELSE c
-  IN ThenD(ThenD(ThenD(ThenD(ThenD(ThenD(ThenD(A(c0), B), C1), D), E), F), G), H)
+  IN ThenD(ThenD(ThenD(ThenD(ThenD(ThenD(ThenD(ThenD(A(c0), A2), B), C1), D), E), F), G), H)
 
 \* get_packet_destination (handler/common.py)
 RouteToSource(pkt) == pkt.t \in {"FIN", "NAK", "KA"} \/ (pkt.t = "ACK" /\ pkt.acked = "EOF")
